@@ -6,7 +6,7 @@ LEVEL = 'exploration'
 FEATS = ['has_journal', 'ext_attr', 'resize_inode', 'dir_index', 'filetype', 'extent', 'flex_bg', 'sparse_super', 'large_file', 'huge_file', 'uninit_bg', 'dir_nlink', 'extra_isize', '64bit', 'meta_bg', 'inline_data',
          'bigalloc', 'quota', 'project', 'metadata_csum', 'metadata_csum_seed', 'sparse_super2', 'ea_inode', 'large_dir', 'orphan_file', 'stable_inodes', 'verity']
 RULE = ('Hypothesis builds an mke2fs command line: -b 1k/2k/4k, -t ext2/3/4/none, -T usage type, -O with 0-5 features added/removed out of %d, -C, -I, -i/-N, -g (multiples of 8 up to 8*bs), -G, -m, -J size, -r 0, -L, -e, '
-        '-E {stride, stripe_width, resize, offset, packed_meta_blocks, num_backup_sb, root_owner, orphan_file_size, quotatype}, -d <small host tree>, and a device size that is boundary-biased '
+        '-E {stride, stripe_width, resize, offset, packed_meta_blocks, num_backup_sb, root_owner, orphan_file_size, quotatype}, -d <small host tree>, two boundary-directed profiles (many small groups x odd RAID stride without flex_bg; short last backup group x oversized reserved GDT), and a device size that is boundary-biased '
         '(k*blocks_per_group + delta around group boundaries and around multiples of descriptors-per-block groups, single group). Accepted (exit 0) => e2fsck -fn exits 0, the independent checker e4ref is clean, '
         'requested block/cluster/inode size, blocks-per-group, features, label, UUID, reserved ratio, flex size, stride/stripe, journal size and offset are in effect, size is within one group of the request, '
         'backup superblocks/descriptors sit exactly at the groups the format prescribes and equal the primary, a second identical run is byte-identical, and `mke2fs -n` beforehand wrote nothing (hash + syscall trace). '
@@ -21,7 +21,7 @@ def strategy(env):
         jsize=st.sampled_from([0, 0, 0, 1, 4, 8]), rev0=st.sampled_from([False] * 9 + [True]), label=st.sampled_from([None, 'lbl', 'a-16-byte-label!', '']), errors=st.sampled_from([None, 'continue', 'remount-ro', 'panic']),
         stride=st.sampled_from([0, 0, 0, 1, 2, 4, 8, 13, 16, 31, 32, 64, 128]), stripe=st.sampled_from([0, 0, 8, 64]), resize=st.sampled_from([0, 0, 0, 2, 10, 2000, 100000, -1]), rem=st.integers(0, 700), offset=st.sampled_from([0, 0, 0, 512, 4096, 1000000]), packed=st.booleans(),
         nbackup=st.sampled_from([None, None, 0, 1, 2]), owner=st.sampled_from([None, None, '1000:1000', '0:0']), orphsz=st.sampled_from([0, 0, 0, 32, 64]), quotatype=st.sampled_from([None, None, 'usrquota', 'usrquota:grpquota:prjquota', 'grpquota']),
-        tree=st.sampled_from([0, 0, 0, 1, 2]), sizemode=st.integers(0, 19), groups=st.sampled_from([1, 1, 2, 3, 4, 5, 7, 8, 9, 15, 16, 17, 25, 26, 27, 31, 32, 33, 49, 50, 63, 64, 65, 127, 128, 129, 256, 257]), delta=st.integers(-3, 60), lazy=st.booleans()))
+        tree=st.sampled_from([0, 0, 0, 1, 2]), sizemode=st.integers(0, 19), groups=st.sampled_from([1, 1, 2, 3, 4, 5, 7, 8, 9, 15, 16, 17, 25, 26, 27, 31, 32, 33, 49, 50, 63, 64, 65, 127, 128, 129, 256, 257]), delta=st.integers(-3, 60), lazy=st.booleans(), profile=st.sampled_from([None] * 10 + ['stride-smallgroups', 'stride-smallgroups', 'resize-window', 'resize-window']), pa=st.integers(0, 1000), pb=st.integers(0, 1000)))
 
 def envinit(widx):
     env = hyp.img_env(widx, variants=('asan',))
@@ -95,7 +95,24 @@ def build_cmd(case, img):
 
 DEFAULTS = dict(fstype='ext4', usage=None, cluster=0, isize=0, iratio=0, ninodes=0, bpg=0, flex=0, resv=None, jsize=0, rev0=False, label=None, errors=None, stride=0, stripe=0, resize=0, offset=0, packed=False, nbackup=None, owner=None, orphsz=0, quotatype=None, tree=0)
 
+def apply_profile(case):
+    """boundary-directed profiles: parameter regions where table placement arithmetic has its corner cases (everything else stays as drawn)"""
+    pr = case.get('profile')
+    if not pr: return case
+    c = dict(case); a = case.get('pa', 0); b = case.get('pb', 0)
+    if pr == 'stride-smallgroups':
+        # RAID stride rotates the bitmaps inside each group: with at least as many groups as blocks per group and a stride coprime to the usable group size, every residue - incl. the last block of a group - is reached
+        c.update(bs=1024, cluster=0, bpg=256, groups=[250, 253, 255, 256, 256][a % 5], sizemode=0, delta=0 if b % 3 else b % 5, stride=[1, 3, 5, 7, 11, 13, 17, 31][b % 8], fstype=['ext2', 'ext3', 'ext2'][a % 3], tree=0, offset=0,
+                 isize=[0, 128, 256][a % 3], ninodes=[0, 0, 5000][b % 3], iratio=0, resize=0, jsize=0, usage=None, feats=[f for f in case['feats'] if f[1] in ('sparse_super', 'resize_inode', 'dir_index', 'filetype', 'large_file')])
+    elif pr == 'resize-window':
+        # a short last group that carries a superblock backup, next to a reserved-GDT area much larger than the default: the "is the last group worth keeping" threshold
+        c.update(bs=[1024, 1024, 4096][a % 3], cluster=0, bpg=0, groups=[1, 3, 5, 7, 9, 25][b % 6], sizemode=10, rem=60 + (a * 7 + b) % 420, resize=[-1, 100000, 2000][b % 3], fstype='ext4', tree=0, offset=0, ninodes=[16, 64, 100, 300][a % 4], iratio=0,
+                 isize=0, jsize=0, usage=None, flex=[0, 4, 16][b % 3], feats=[f for f in case['feats'] if f[1] in ('sparse_super', 'resize_inode', 'has_journal', 'metadata_csum', '64bit', 'huge_file')])
+        if c['bs'] == 4096: c['groups'] = 1
+    return c
+
 def body(case, env):
+    case = apply_profile(case)
     fp = core.stable_hash(case); classes = ['bs:%d' % case['bs'], 'fstype:%s' % case['fstype']]
     d = env['dir']; img = os.path.join(d, 'mk.img'); img2 = os.path.join(d, 'mk2.img')
     opts, blocks, ebpg = build_cmd(case, img)
@@ -235,6 +252,7 @@ def body(case, env):
     ndiff = sum(1 for k, v in DEFAULTS.items() if case.get(k) != v) + (1 if case['feats'] else 0)
     for k, v in DEFAULTS.items():
         if case.get(k) != v: classes.append('opt:' + k)
+    if case.get('profile'): classes.append('profile:' + case['profile'])
     classes.append('groups:%s' % ('1' if nb <= ebpg else '2-8' if nb <= 8 * ebpg else '9-64' if nb <= 64 * ebpg else '65+'))
     for f in sorted(feats & {'bigalloc', 'meta_bg', 'sparse_super2', 'inline_data', 'quota', 'flex_bg', '64bit', 'metadata_csum'}): classes.append('feat:' + f)
     return (None, fp, ndiff >= 2, dict(cmd=' '.join(opts + cmd_tail) + ' <img> %d' % blocks, blocks_count=nb, features=sorted(feats)), classes)
